@@ -4,7 +4,7 @@ import vlib
 from props import scen
 
 KEEP = {"env_begin", "run_call", "gate", "run_ret", "ready", "hstart", "hunbind", "hend", "hpanic", "onclose_in", "onclose_out",
-        "stop_call", "stop_ret", "dial", "send", "close", "stopreading", "eof"}
+        "stop_call", "stop_ret", "dial", "send", "close", "stopreading", "eof", "timeout"}
 FIELDS = ("seq", "ev", "c", "conn", "req", "i", "k", "s", "val")
 CONSTS = {"Conns": "{" + ", ".join('"c%d"' % i for i in range(1, 13)) + "}", "MaxReq": "64", "Stoppers": '{"s1", "s2"}',
           "FrameKinds": '{"op", "unbind", "starttls", "bad", "partial"}'}
@@ -16,7 +16,7 @@ INV_OF = {"ReqIDsInOrder": "C06", "NothingAfterUnbind": "C10", "Alive": "C07", "
 
 def group_of(cfgv):
     mode = {"tls": '"server"', "mtls": '"mtls"'}.get(cfgv.get("tls", ""), '"none"')
-    return (mode, "TRUE" if cfgv.get("expect_run_error") == "1" else "FALSE")
+    return (mode, "TRUE" if cfgv.get("expect_run_error") == "1" else "FALSE", "TRUE" if cfgv.get("read_timeout_ms") else "FALSE")
 
 
 def traces_of(rows, scenarios):
@@ -66,10 +66,10 @@ def check(run, rows, scenarios, timeout=1800):
     """returns (accepted ids, rejected [{'id', 'frontier'}], number of traces, skipped)"""
     groups, skipped = traces_of(rows, scenarios)
     accepted, rejected, n = set(), [], 0
-    for (mode, lf), trs in sorted(groups.items()):
+    for (mode, lf, rt), trs in sorted(groups.items()):
         f = run.path("refine_%d.ndjson" % (run.nmeta + 1))
         vlib.write_ndjson(f, trs)
-        consts = dict(CONSTS, TLSMode=mode, ListenFails=lf)
+        consts = dict(CONSTS, TLSMode=mode, ListenFails=lf, ReadTimeout=rt)
         body = "INIT RInit\nNEXT RNext\nCONSTRAINT NotYetAccepted\nINVARIANTS %s\nPOSTCONDITION Report\nCHECK_DEADLOCK FALSE\n" % " ".join(INV_OF)
         res = run.tlc("GldapRefine", scen.cfg(consts, body), env={"OBS": f}, workers=1, timeout=timeout, dfs=True, heap="12g", cdot=True, cont=True)
         if res.fatal:
@@ -212,7 +212,7 @@ def tamper_variants(tr):
 def selftest(run, rows, scenarios):
     """returns (number of corrupted traces, descriptions of those that were accepted - must be empty)"""
     groups, _ = traces_of(rows, scenarios)
-    trs = groups.get(('"none"', "FALSE"), [])
+    trs = groups.get(('"none"', "FALSE", "FALSE"), [])
     pick = None
     for t in trs:
         evs = [e for q in t["procs"] for e in q]
